@@ -199,7 +199,7 @@ def eval_fault(case):
 
 
 # ------------------------------------------------------------------------------------------ components
-LABEL_FORMS = ('none', 'scalar', 'list1', 'list4', 'nobdf', 'shared')   # shared: ONE scalar Labels object passed for every port
+LABEL_FORMS = ('none', 'scalar', 'list1', 'list4', 'nobdf', 'shared', 'nones')   # shared: ONE scalar Labels object passed for every port
 
 
 def mk_labels(form, k):
@@ -306,7 +306,9 @@ def eval_component(case):
         if ids:
             kw.update(interface_node_ids=[f'if-{k}' for k in range(len(ports))], ns_node_id='ns-id')
         if lab != 'none':
-            if lab == 'shared':
+            if lab == 'nones':
+                labels = [None for _ in ports]        # the documented way to supply interface ids without labels
+            elif lab == 'shared':
                 one = mk_labels('scalar', 0)
                 labels = [one for _ in ports]
             else:
@@ -379,7 +381,10 @@ def eval_component(case):
         want_local = [p] * want_units if lab in ('list1', 'list4') else p
         if L.local_name != want_local:
             bad('local-name', f'{p}: {L.local_name!r} expected {want_local!r}')
-        if labels is not None:
+        if lab == 'nones':
+            if any(getattr(L, f) is not None for f in ('bdf', 'mac')):
+                bad('label-invented', f'{p}: {L}')
+        elif labels is not None:
             src = mk_labels('scalar', 0) if lab == 'shared' else mk_labels(lab, k)
             # the caller's label objects are the caller's: generating a component does not write into them
             if labels[k].__dict__ != src.__dict__:
